@@ -42,6 +42,12 @@ SmallP == IF Scale >= 2 THEN {P1, P3, P5, P7, P10, P2} ELSE {P1, P3, P7}
 Wheres == Atoms \cup {PJ} \cup {ANot(p) : p \in Atoms}
           \cup {ABin(op, p, q) : op \in {"&", "or"}, p \in SmallP, q \in SmallP}
           \cup {ABin("and", ANot(p), ABin("|", q, ANot(p))) : p \in SmallP, q \in SmallP}
+          \cup {ABin(op, ANot(p), q) : op \in {"&", "|", "and", "or"}, p \in {P1, P3}, q \in {P7, P2}}
+          \cup {ABin(op, p, ANot(q)) : op \in {"&", "|", "and", "or"}, p \in {P1, P7}, q \in {P3}}
+          \* constant comparisons that fold to the absorbing value of the connective: the rest of the clause must still be checked
+          \cup {ABin(op, c, p) : op \in {"|", "or"}, c \in {ABin("=", AInt(1), AInt(1))}, p \in {P2, P3, P11, P13}}
+          \cup {ABin(op, c, p) : op \in {"&", "and"}, c \in {ABin(">", AInt(1), AInt(2))}, p \in {P2, P3, P11, P13}}
+          \cup {ABin(op, p, c) : op \in {"|", "&"}, c \in {ABin("=", AStr(a), AStr(a)), ABin("=", AStr(a), AStr(bb))}, p \in {P2, P14}}
 
 Fields == { <<F(AKey, ""), F(ABin("+", Call1("int", AVal), AInt(1)), "n")>>, <<F(Call1("upper", AKey), ""), F(Call1("str", Call1("strlen", AVal)), "")>>,
             <<F(AIdx(SplitV, AInt(0)), "h"), F(P3, "big")>>, <<F(ACall("join", <<AStr(Comma), AKey, AVal>>), "j")>> }
